@@ -8,11 +8,32 @@ import pipe
 
 ID = "C17"
 MODULE = "C17"
-IMPORTS = "Guards GuardsProofs"
+IMPORTS = "PathSan PresentLine Guards GuardsProofs"
 PROFILES = ("dev",)
 PER_SHARD = 12
 KERNEL_SAMPLE = 12
-THEOREMS = []
+THEOREMS = [
+    ("guarded_content_confined",
+     "forall (fs : bytes -> option bytes) (errpage : N -> bytes) (secret : bytes), "
+     "(forall t c, fs t = Some c -> contains_sub secret c = true -> guarded t c = true) -> "
+     "(forall s, contains_sub secret (errpage s) = false) -> "
+     "(forall s, PresentLine.present_parse (errpage s) = Ok None) -> "
+     "forall cache_on ims_on parse_ims refuses vary_tuple vary_header now ops, "
+     "Forall2 (reply_ok fs secret) ops (run_g true true fs errpage cache_on ims_on parse_ims refuses vary_tuple vary_header [] now ops)"),
+    ("reply_ok_meaning",
+     "forall fs secret r rp lg, reply_ok fs secret (OReq r) (ObReply rp lg) -> "
+     "contains_sub secret (rp_body rp) = true \\/ contains_sub secret (rp_identity rp) = true -> "
+     "exists t c, served_file (rq_path r) = Ok (Some t) /\\ fs t = Some c /\\ is_private t = false /\\ "
+     "has_name N_HIDE (entries_of c) = false /\\ has_name N_ALLOW (entries_of c) = true /\\ listed (rq_addr r) (entries_of c) = true"),
+    ("range_of_clean_body_clean", "forall secret lo hi body, contains_sub secret (slice lo hi body) = true -> contains_sub secret body = true"),
+    ("spelling_decodes", "forall mask d, Forall (fun c => c < 256) d -> mask_ok mask d = true -> "
+     "PathSan.percent_decode (pct_encode mask d) = d"),
+    ("ext_lookup_spelling_independent", None),
+    ("allow_ips_never_stored", None),
+    ("private_spelling_v0_refuted", None),
+    ("cache_directive_v0_refuted", None),
+    ("violates_contradicts_confined", "forall fs secret ops obs, violates fs secret ops obs -> ~ Forall2 (reply_ok fs secret) ops obs"),
+]
 RULE = ("histories of requests against the real kvarn::handle_cache in process (host = Extensions::empty() + kvarn_extensions::mount_all, "
         "fixture files written to a fresh directory, chosen client address per request) vs. the extracted Coq model (correspondence: status, "
         "cache-control, last-modified presence, decoded body, identity body per request). Fixture files carry a marker SECRET:<file>:<nonce> "
@@ -39,7 +60,18 @@ ASSUMPTIONS = [
 TRUSTED = ["modelled: extensions/src/lib.rs ip_allow, hide (no template), cache, download, mount_all; src/extensions.rs resolve_present; src/lib.rs "
            "get_response/handle_request file path + handle_cache (Model/Cache.v); std Path::extension, IpAddr::from_str (IPv4 part), "
            "ClientCachePreference/ServerCachePreference::from_str; Model/PresentLine.v (C16) for the '!> ' line; Model/PathSan.v (C01) for decoding/sanitize"]
-LEVEL_TEXT = ""
+LEVEL_TEXT = ("Coq theorem guarded_content_confined over the model of the repaired code (file-serving path + Present directives + response "
+              "cache): for every file system in which a secret byte string occurs only inside guarded files, every history of requests / clears / "
+              "waits from the empty cache (any raw percent-encoded paths, queries, methods, headers, client addresses, in any order), response cache "
+              "on or off, any negotiation outcome and vary rules, a reply (body sent or identity body) contains the secret only if the request's "
+              "decoded path is a file whose line has allow-ips and no hide, that is not *.private, and whose every allow-ips directive lists the "
+              "request's own client address (reply_ok_meaning). Proof: per-request decision of the layer below the cache + inductive cache invariant "
+              "(no stored variant contains the secret; no key belongs to a raw path that can produce it - needed because a variant push stores "
+              "without consulting the server preference) using allow_ips_never_stored (allow-ips forces preference None whatever cache directives "
+              "surround it). spelling_decodes / ext_lookup_spelling_independent: every subset-of-positions, either-hex-case encoding denotes the same "
+              "file and the same extension lookup. The statement is refuted for the code before the two fix: commits (private_spelling_v0_refuted, "
+              "cache_directive_v0_refuted; both reproduced on the real code first). Tied to the repaired /repo by the differential run with a "
+              "secret-marker oracle that does not depend on the model.")
 LEVEL_NOTE = ("Trusted: Coq kernel; extraction (sample re-checked in-kernel); hand transcription validated by the differential run; "
               "fs / error pages / negotiation / vary as section variables with the stated hypotheses. No axioms.")
 TECHNIQUE = "Coq proof (cache invariant over all histories + per-request decision) + differential correspondence on kvarn::handle_cache with secret-marker oracle"
